@@ -312,6 +312,17 @@ func (a *appGenerator) makeCodegenApp() (GenApp, error) {
 	}
 	sort.Sort(genModels)
 
+	// two definitions that mangle to the same Go type (or file) would silently overwrite each other
+	goModels := make(map[string]string, len(genModels))
+	for _, model := range genModels {
+		goName := strings.ToLower(swag.ToFileName(pascalize(model.Name)))
+		if other, found := goModels[goName]; found {
+			return GenApp{}, fmt.Errorf("definitions %q and %q cannot be told apart once converted to go names (%s): rename one of them or use x-go-name",
+				other, model.Name, pascalize(model.Name))
+		}
+		goModels[goName] = model.Name
+	}
+
 	log.Printf("planning operations (found: %d)", len(a.Operations))
 
 	genOps := make(GenOperations, 0, len(a.Operations))
